@@ -49,8 +49,12 @@ def k_contact(tags):
 def k_abstol(tags):
     """Absolute tolerances (1e-6 crossing distance / Newton determinant cut-off / box margin /
     parameter filters, 1e-9 point equality): a curved operand in a configuration whose
-    diameter is below 0.5 length units."""
+    diameter is below 0.5 length units, or float coordinates above 4e6 (where the spacing of
+    doubles exceeds the 1e-9 point-equality tolerance)."""
     if tags.get("curved") and tags.get("diameter") is not None and tags["diameter"] < 0.5:
+        return True
+    # float spacing exceeds the 1e-9 point-equality tolerance from |coordinate| = 2**52 * 1e-9 = 4.5e6 on
+    if tags.get("maxcoord") is not None and tags["maxcoord"] > 4.0e6:
         return True
     return False
 
